@@ -388,6 +388,14 @@ O(id='OPEN_TYPE_ber_get', props=['C18', 'C14', 'C04'], kind='bounded', entry='h_
 O(id='OPEN_TYPE_oer_get', props=['C18', 'C04'], kind='bounded', entry='h_OPEN_TYPE_oer_get', functions=['OPEN_TYPE_oer_get', 'oer_open_type_get', 'CHOICE_variant_set_presence'],
   unwind=20, cbmc=['--no-malloc-may-fail'], bound='as OPEN_TYPE_ber_get, input of at most 16 octets', min_props=50, timeout=600, **OTY)
 
+# ---------------------------------------------------------------- BOOLEAN
+BO = dict(harness='harness/h_boolean.c', units=[SK + 'BOOLEAN.c'], fp_restrict=[(r'::cb$|\.output\)$', ['vf_cb'])])
+O(id='BOOLEAN_roundtrip', props=['C01', 'C02', 'C13'], kind='width', entry='h_BOOLEAN_roundtrip', functions=['BOOLEAN_encode_der', 'BOOLEAN_decode_ber', 'BOOLEAN_encode_oer', 'BOOLEAN_decode_oer', 'BOOLEAN_encode_uper', 'BOOLEAN_decode_uper', 'BOOLEAN_compare'],
+  proves=['BOOLEAN_encode_der', 'BOOLEAN_encode_oer', 'BOOLEAN_encode_uper'], unwind=18, cbmc=['--unwindset', 'asn_put_few_bits:3,asn_get_few_bits:4', '--no-malloc-may-fail'],
+  bound='every int value of a BOOLEAN_t, three transfer syntaxes (loop bounds: 1 contents octet)', min_props=50, timeout=600, **BO)
+O(id='BOOLEAN_decode_ber.b8', props=['C03', 'C04', 'C05'], kind='bounded', entry='h_BOOLEAN_decode_ber', functions=['BOOLEAN_decode_ber'],
+  unwind=18, bound='every input of at most 8 octets', min_props=50, timeout=600, **BO)
+
 UNVERIFIED = {
  'C07': ['asn_encode_to_buffer / asn_encode_to_new_buffer / uper_encode_to_buffer / uper_encode_to_new_buffer with a UPER type encoder: obligations exist (tier experimental) but do not discharge (symbolic-length memcpy of the 32-octet bit scratch space runs out of memory); asn_encode with UPER is covered',
          'every constructed / generated type encoder is assumed to follow the operation-slot convention enumerated by the stub encoder',
